@@ -463,6 +463,9 @@ func c18Levels(tier string) []core.Level {
 		for i := 0; i < n; i++ {
 			for j := i; j < n; j++ {
 				if paired(i, j) {
+					if bound > 1 && j >= 22 {
+						continue // the two filter operations (several hundred points each): schedules with <= 1 preemption, and the race pass
+					}
 					emit(core.Case{Fam: "sched", N: []int{kind, bound, i, j}})
 				}
 			}
@@ -475,7 +478,7 @@ func c18Levels(tier string) []core.Level {
 	}
 	lv := []core.Level{
 		{Name: "twig env: pairs of 24 operations (incl. the same one twice), all schedules with <= 1 preemption", Gen: func(emit func(core.Case)) { pairs(0, 1, emit) }},
-		{Name: fmt.Sprintf("twig env: all pairs, all schedules with <= %d preemptions", bound), Gen: func(emit func(core.Case)) { pairs(0, bound, emit) }},
+		{Name: fmt.Sprintf("twig env: all pairs (but those with the two filter operations), all schedules with <= %d preemptions", bound), Gen: func(emit func(core.Case)) { pairs(0, bound, emit) }},
 		{Name: "core env: all pairs, all schedules with <= 1 preemption", Gen: func(emit func(core.Case)) { pairs(1, 1, emit) }},
 		{Name: fmt.Sprintf("twig env: %d three-thread scenarios, all schedules with <= 2 preemptions", nTriples), Gen: func(emit func(core.Case)) {
 			for _, t := range triples[:nTriples] {
